@@ -6,6 +6,8 @@ from .C03 import _rank_profiles, _pick
 
 AOPTS = {'scalar_mode': 'A', 'logic': None, 'setup': {'factor_mode': 'exact'}, 'case_timeout_s': 120}
 
+THOROUGH_SEEDS = 3
+
 
 def cases(tier, seed):
     rng = random.Random(seed + 7)
